@@ -17,7 +17,9 @@ import WcModel.Proofs.GlobSpec
     D8  `**/` accepts a regular file,
     G3  a second `**` group is link-tested against the wrong base (`_wcmatch.py:106-107`),
     G2  (glob side) IGNORECASE folds two entries into one seen-set key,
-    D17 (glob side, see C05; D14 and D16, which also showed here, are repaired).
+    D17 (glob side, see C05; D14, D16 and G6 — MATCHBASE leaking into the walker's per-part
+        regexes, `G6_fixed_witness` — which also showed here, are repaired),
+    G5 / D3 under MATCHBASE (match side: the implicit `**/` of the whole regex, `G5_D3_matchbase_witness`).
   Both sides are related to one specification (`Spec/Denotes`) by checks, not by proof: the
   capture decomposition `Re.runCap` is executable and validated, not proved (§8 of the design);
   theorems below use it only through `fsMatch`'s definition, never assuming a particular split.
@@ -120,6 +122,39 @@ def t3 : FS := ⟨.dir [("a".toList, .file), ("A".toList, .file)], []⟩
 theorem G2_witness :
     gg Gen.FIGNORECASE "*" t3 = some ["a"] ∧
     mm (Gen.FIGNORECASE ||| Gen.FREALPATH) "*" t3 "A" = some true := by decide +kernel
+
+/-- r/ = { q/ { x }, b } -/
+def t4 : FS := ⟨.dir [("q".toList, .dir [("x".toList, .file)]), ("b".toList, .file)], []⟩
+
+/-- r/ = { a/ { a⏎/ }, a⏎ } -/
+def t5 : FS := ⟨.dir [("a".toList, .dir [("a\n".toList, .dir [])]), ("a\n".toList, .file)], []⟩
+
+def MB : Nat := Gen.FMATCHBASE
+def EX : Nat := Gen.FEXTMATCH
+
+/-- **KF-G6 (repaired by a `fix:` commit)**: `_GlobSplit.store` compiled every magic part with
+    MATCHBASE still set, so each per-part regex carried the implicit `**/` prefix: a part that can
+    match the empty string matched every name — `glob('*(a)/x', EXTGLOB|MATCHBASE)` returned
+    `q/x`, `glob('*(a|b)', EXTGLOB|MATCHBASE)` every entry — and the `$` of the prefix's divider
+    let `glob('?', MATCHBASE)` return the directory `a/a⏎`.  With the flags cleared for the part
+    compiler (`SplitCfg.partFlags`; for all strings: `globSplit_base_only`) `glob` returns what
+    the pattern denotes — the same as the written `**/` spelling — and what `globmatch(REALPATH)`
+    accepts of these paths.  Fails again if the defect returns. -/
+theorem G6_fixed_witness :
+    gg (EX ||| MB) "*(a)/x" t4 = some [] ∧ mm (EX ||| MB ||| Gen.FREALPATH) "*(a)/x" t4 "q/x" = some false ∧
+    gg (EX ||| MB) "*(a|b)" t4 = some ["b"] ∧ gg (EX ||| GS) "**/*(a|b)" t4 = some ["b"] ∧
+    gg MB "?" t5 = some ["a"] ∧ gg GS "**/?" t5 = some ["a"] ∧
+    mm (MB ||| Gen.FREALPATH) "?" t5 "a/a\n" = some false := by decide +kernel
+
+/-- what is left under MATCHBASE is on the `globmatch` side, where the whole regex keeps the
+    implicit `**/`: **KF-G5** (a segment that can match the empty string accepts every name after
+    a `**/`: `q/x` and `q` for `*(a|b)`) and **KF-D3** (the `$` of the divider `(?:^|$|/)+` stops
+    before a final newline: the file `a⏎` for `?`, see `C02neg.D3_matchbase_needed`); `glob`
+    returns neither. -/
+theorem G5_D3_matchbase_witness :
+    mm (EX ||| MB ||| Gen.FREALPATH) "*(a|b)" t4 "q/x" = some true ∧
+    mm (EX ||| MB ||| Gen.FREALPATH) "*(a|b)" t4 "q" = some true ∧ gg (EX ||| MB) "*(a|b)" t4 = some ["b"] ∧
+    mm (MB ||| Gen.FREALPATH) "?" t5 "a\n" = some true ∧ gg MB "?" t5 = some ["a"] := by decide +kernel
 
 /-- side clauses on a concrete tree: a missing path, a relative pattern against an absolute
     path, a directory pattern against a directory / a file written without separator -/
